@@ -26,6 +26,7 @@ mod gen_vp8l;
 mod c01;
 mod c01spec;
 mod c15;
+mod c08;
 
 fn main() {
     let args: Vec<String> = std::env::args().collect();
@@ -53,6 +54,7 @@ fn main() {
         "c01" => c01::run(tier, seed, out, extra),
         "c01spec" => c01spec::run(tier, seed, out, extra),
         "c15" => c15::run(tier, seed, out, extra),
+        "c08" => c08::run(tier, seed, out, extra),
         other => {
             eprintln!("unknown check {other}");
             std::process::exit(2);
